@@ -25,7 +25,7 @@ TIERS = {
     'quick': dict(shards=8, Ns=[10], W=3, M=3, per_config=3, per_custom=0,
                   per_custom_sweep=2, timeout_s=600),
     'thorough': dict(shards=16, Ns=[6, 12, 24], W=3, M=4, per_config=8,
-                     per_custom=3, per_custom_sweep=5,
+                     per_custom=1, per_custom_sweep=5,
                      timeout_s=5400, case_timeout_s=900),
 }
 LEVEL = 'fault_enumeration'
